@@ -184,6 +184,17 @@ def check_converse(st, rng, res, blk, hist, Dlen):
                 res["stats"]["conv_match"] += 1
                 res["keys"].add(hashlib.sha1(b"conv|%s|%d|%s|%d" % (blk[:4000], len(h), api.encode(), cap)).hexdigest())
         else:
+            if len(h) <= 4000 and len(blk) <= 3000:
+                # judge: the extracted specified_output (Coq: theorem C16_partial_sound) - the Python decoder below only classifies F5
+                a = st["dec2"].ask("semout", hx(h[-65536:]), hx(blk[:srcsize]), str(r)).split()
+                res["stats"]["conv_sem_calls"] += 1
+                if int(a[0]) >= r and a[1] == md5(img[:r]):
+                    res["stats"]["conv_match_partial_sem"] += 1
+                    continue
+                if not has_zero_offset(blk):
+                    fail(res, "prop_fail", "partial decoder returned %d but the output is not the prefix of the specified output (extracted sem; its length %s)" % (r, a[0]),
+                         blk=blk.hex(), api=api, cap=cap, target=target, build=bname, hist=hshort(h))
+                    continue
             exp, p0 = declib2.py_decode(h, blk[:srcsize], r)
             if p0 is not None and p0 < r and exp[:p0] == img[:p0] and has_zero_offset(blk):
                 fail(res, "prop_fail", "partial decoder reports success (%d) on a block with match offset 0 (output correct up to that match)" % r,
